@@ -4,7 +4,7 @@ HOOKS = {
     "guard": "cfg(kani)",
     "enable": "set only by Kani's compiler wrapper: `cargo kani` compiles /repo's crates with --cfg kani; a normal cargo build/test never sets it",
     "baseline_off_cmd": BASELINE_OFF,
-    "source_commits": [],
+    "source_commits": ["b28bb74", "5b88d2d"],
     "add_only": True,
 }
 NOTES = ("Solver-based checking with Kani/CBMC of /repo's compiled code. Every check regenerates its harness shell from /repo's "
@@ -21,6 +21,26 @@ CLAIMS = {
         technique="Kani/CBMC bounded model checking (SAT) of the real Value functions over full symbolic domains"),
 }
 
+CLAIMS["C04"] = dict(
+    text="One solver query per opcode (174): the real handler text of ops/*.inc, re-instantiated in the generated reduced dispatch shell, is executed for one "
+         "step from an arbitrary coherent frame state - instruction word, register contents, window base and position all symbolic, one heap object of every "
+         "kind the handler dispatches on - and CBMC's pointer/bounds/overflow/panic/enum-validity checks plus 'cached locals match the new top frame' are the "
+         "assertion. No verifier assumption is made (cache words and jump targets are unchecked, so accepted code can execute any word). The verifier itself is "
+         "checked for totality and for the guarantees the handlers rely on, per container shape, and OpCode::from_u8 over all 256 bytes.",
+    design_ref="DESIGN.md §2 C04",
+    note="Bounds: 4-word function, 2 constants, 6 registers, base <= 2, heap pool per opcode family, 40-byte heap headroom, unwind 7; natives, formatting, "
+         "stack traces and global-layout switching are stubbed; GC is off (no_gc_depth=1); debug_assert! compiled out (release configuration). Undecided "
+         "obligations (timeouts) are listed in the evidence and are not counted as holding. Multi-step interplay beyond the frame invariant is outside.",
+    technique="Kani/CBMC bounded model checking of the real opcode handlers (generated reduced dispatch shell), one SAT query per opcode")
+CLAIMS["C18"] = dict(
+    text="air/src/layout.rs is re-instantiated byte for byte; struct_layout is run on every struct of 0..4 fields whose types are symbolic among 15 leaf types "
+         "and fixed arrays of them, and the result is compared with the declarative SysV rules (least padding per field, alignment = max field alignment, "
+         "size = least multiple of the alignment covering the last field); align_to and references_by_value over their full small domains.",
+    design_ref="DESIGN.md §2 C18",
+    note="Out: nested structs by value and declaration-order independence / cycle diagnosis (string-keyed HashMap: one insert+get gave no verdict in 900 s), "
+         "array lengths >= 2^32.",
+    technique="Kani/CBMC bounded model checking of the re-instantiated layout kernel against declarative ABI rules")
+
 NOT_APPLICABLE = {
     "C03": "every obligation must execute Heap::mark; on a fully concrete two-object heap CBMC needs ~290 s of symbolic execution and the SAT query does not finish in 14 min (object kinds read back from Vec<Option<GcObject>> are not constant-propagated, every kind's tracing loop and Vec growth is unrolled per worklist step); symbolic heaps are far beyond reach",
     "C11": "a negative reachability statement over HashMap<String,Value> globals, the native registry, module-path resolution, dynamic loading and real file/socket/process FFI; Kani cannot finish three inserts into a string-keyed map (>600 s) and does not model the syscalls",
@@ -31,6 +51,6 @@ NOT_APPLICABLE = {
 }
 # not yet built (kept current as checks are added)
 PENDING = {p: "check under construction in this session (see DESIGN.md); not claimed until its quick tier passes on the unchanged tree"
-           for p in ["C01", "C02", "C04", "C05", "C06", "C07", "C08", "C09", "C10", "C13", "C15", "C18", "C20"]}
+           for p in ["C01", "C02", "C05", "C06", "C07", "C08", "C09", "C10", "C13", "C15", "C20"]}
 for _p, _r in PENDING.items():
     NOT_APPLICABLE.setdefault(_p, _r)
